@@ -97,7 +97,7 @@ func c37(c *Ctx) {
 				if !ok || CalleeName(&lc.Call) != "builtin:len" {
 					return
 				}
-				sl, ok := lc.Call.Args[0].(*ssa.Slice)
+				sl, ok := BaselineArgs(&lc.Call)[0].(*ssa.Slice)
 				if !ok || sl.X != outer.X || sl.Low != outer.Low || sl.High != nil {
 					return
 				}
@@ -147,9 +147,9 @@ func c37(c *Ctx) {
 				}
 			case *ssa.Call:
 				if CalleeName(&x.Call) == "builtin:append" && labelAppend == nil {
-					if _, isSlice := x.Call.Args[1].(*ssa.Slice); isSlice {
+					if _, isSlice := BaselineArgs(&x.Call)[1].(*ssa.Slice); isSlice {
 						labelAppend = in
-						name = Term(x.Call.Args[0])
+						name = Term(BaselineArgs(&x.Call)[0])
 					}
 				}
 			}
